@@ -241,9 +241,10 @@ def parse_uri(uri):
     return [(k, val.encode("utf-8", "surrogateescape")) for k, val in pairs], None
 
 
-def judge(raw, v, uri):
-    """list of (kind, expected, observed); None when (metafile, version) is outside the quantifier"""
-    exp = expected_of(raw)
+def judge(raw, v, uri, exp=None):
+    """list of (kind, expected, observed); None when (metafile, version) is outside the quantifier
+       (exp: expected_of(raw) when the caller has computed it already)"""
+    exp = expected_of(raw) if exp is None else exp
     want_xt = expected_xts(exp, v)
     if want_xt is None:
         return None
@@ -672,7 +673,10 @@ def pad_to(holder, key, need):
     return False
 
 
-def sized(g, ver, comp, what, target):
+HEAVY = ("files", "file tree", "announce-list", "url-list")        # components of many small elements
+
+
+def sized(g, ver, comp, what, target, cap=1200):
     """reference-encoded big_dict whose info dictionary (what = 'info') or whole encoding (what = 'metafile') has EXACTLY `target`
        bytes: the component is scaled to just below the target and a padding string supplies the rest (when the component lies
        outside the measured dictionary -- trackers or piece layers for the info dictionary -- it gets 1500 units and the padding
@@ -690,6 +694,8 @@ def sized(g, ver, comp, what, target):
     flat = b - a < 64
     unit = max(1.0, (b - a) / 64.0)
     n = 1500 if flat else max(4, int((target - a) / unit) + 8 - 2)
+    if comp in HEAVY:
+        n = min(n, cap)                # pyben's decoder is quadratic in (elements x bytes): the padding supplies the rest
     for _ in range(60):
         top = build(n)
         need = target - measure(top)
@@ -720,8 +726,10 @@ def big_synthetic(ctx, g):
             k = used[ver]
             used[ver] += 1
             comp = comps[(k + k // len(comps)) % len(comps)]      # every component in turn, shifted by one after each round
+            if comp in HEAVY and th > 1 << 18:
+                comp = comps[k % 2] if ver == 3 else comps[0]     # above 256 KiB only the hash strings grow (cost of pyben's decoder)
             d = g.rng.randrange(-3000, 3000) if delta is None else delta
-            raw = sized(g, ver, comp, what, th + d)
+            raw = sized(g, ver, comp, what, th + d, cap=1200 if quick else 3000)
             if raw is None:
                 ctx.notes.append(f"scale: no {what} of {th + d} bytes with a big {comp} (v{ver}) could be constructed")
                 continue
@@ -911,26 +919,29 @@ def run(ctx, model_ok):
                 (["foreign extra keys"] if any(k not in (b"created by", b"creation date", b"httpseeds") for k in exp["extra"]) else []) + \
                 ([origin] if origin.startswith("created by") else []) + \
                 (list(item[3]) + scale_classes(raw, exp) if len(item) > 3 or big else [])
-            in_model = len(raw) <= MODEL_BOUND
-            if not in_model:
-                base_classes.append("scale: above the byte bound of the extracted model, judged end to end only")
             lib_uri = {}
-            for v in range(4):
+            # at scale the cost of one call is that of pyben's decoder (it copies the rest of the buffer for every element): the quick
+            # tier asks for version 0 and ONE other version in rotation, and sends a sample (<= MODEL_BOUND bytes) to the model
+            versions = [0, 1 + n_big % 3] if big and quick else range(4)
+            for v in versions:
+                in_model = not big or (len(raw) <= MODEL_BOUND and (not quick or (v == 0 and len(raw) <= MODEL_BOUND // 2)))
                 routes = ["lib"]
-                if idx % (5 if quick else 2) == 0 or (big and n_big % 2 == 0):
-                    routes += ["get_magnet", "cli"] + (["cli-default"] if v == 0 else [])
-                if idx % (40 if quick else 60) == 7 and v in (0, 3) and n_sub < (4 if quick else 200):
+                if (idx % (5 if quick else 2) == 0 and not big) or (big and (n_big + v) % 2 == 0):
+                    routes += (["get_magnet", "cli"] if not big or not quick else [["get_magnet"], ["cli"]][n_big // 2 % 2]) + \
+                        (["cli-default"] if v == 0 and (not big or n_big % 4 == 0) else [])
+                if idx % (40 if quick else 60) == 7 and v in (0, 3) and n_sub < (4 if quick else 200) and not big:
                     routes += ["subprocess"] + (["subprocess-default"] if v == 0 else [])
                     n_sub += 1
-                elif big and n_big % (12 if quick else 10) == 2 and v in (0, 3) and n_sub_big < (4 if quick else 40):
-                    routes += ["subprocess"] + (["subprocess-default"] if v == 0 else [])
+                elif big and n_big % (12 if quick else 10) == 2 and v in (0, 3) and n_sub_big < (1 if quick else 40):
+                    routes += ["subprocess"] + (["subprocess-default"] if v == 0 and not quick else [])
                     n_sub_big += 1
                 for route in routes:
                     desc = {"metafile_hex": hexraw, "version": v, "route": route, "label": label, "origin": origin}
                     inside = expected_xts(exp, v) is not None
                     ctx.case(key=(digest, v, route), nontrivial=True,
                              classes=base_classes + [f"{exp['kind']} x version {v}", "route " + route.replace("subprocess-default", "subprocess")]
-                             + ([] if inside else ["v2-only asked for version 1: outside the quantifier, model tie only"]),
+                             + ([] if inside else ["v2-only asked for version 1: outside the quantifier, model tie only"])
+                             + (["scale: judged end to end only (not sent to the extracted model)"] if big and not in_model else []),
                              sample=None)
                     try:
                         uri, shown = run_route(route, path, v, tmp)
@@ -953,10 +964,10 @@ def run(ctx, model_ok):
                         if route == "lib" and b"xt=" in uri.encode():
                             ctx.notes.append("a v2-only metafile asked for version 1 produced an xt parameter (observation only)")
                         continue
-                    probs = judge(raw, v, uri)
+                    probs = judge(raw, v, uri, exp)
                     if shown != uri:
                         probs.append(("printed-differs-from-returned", uri, shown))
-                        pj = judge(raw, v, shown) if isinstance(shown, str) else None
+                        pj = judge(raw, v, shown, exp) if isinstance(shown, str) else None
                         probs += [("printed-" + k, a, b) for k, a, b in (pj or [])]
                     if probs and len(ctx.failures) < 400:
                         kind = probs[0][0]
@@ -1004,7 +1015,7 @@ def _replay_item(item, tmp):
         raw = bytes.fromhex(item["metafile_hex"])
         v = int(item.get("version", 0))
         route = item.get("route", "lib")
-        print(f"metafile ({len(raw)} bytes): {raw!r}")
+        print(f"metafile ({len(raw)} bytes): {raw[:4000]!r}" + (" ... (the whole file is in metafile_hex)" if len(raw) > 4000 else ""))
         print(f"version request: {v}   route: {route}")
         uri, probs, exc = problems_on(raw, v, route, tmp)
         print("tool:  ", uri if exc is None else f"raised {type(exc).__name__}: {exc}")
